@@ -522,6 +522,15 @@ template <class S> static void run_solver(Ctx& ctx, bool T) {
         ctx.worst("unroll.lon2_mod360_dev_ulps_of_scale", std::fabs(d) / (EPS * std::fmax(180.0, std::fabs(a1.v[1]))), key);
         if (!(std::fabs(d) <= 8 * EPS * std::fmax(180.0, std::fabs(a1.v[1])))) ctx.fail(key + " unroll lon2", "unrolled lon2 " + fx(a1.v[1]) + " is not lon2 " + fx(a0.v[1]) + " + 360 k", FF("unroll-lon2"));
         if (!(a0.v[1] >= -180 && a0.v[1] <= 180)) ctx.fail(key + " lon2-range", "lon2 " + fx(a0.v[1]) + " outside [-180,180] without LONG_UNROLL", FF("lon2-range"));
+        // with LONG_UNROLL "lon2 - lon1 indicates how many times and in what sense the geodesic encircles the ellipsoid":
+        // the longitude advances in the sense of sin(azi1) x sign(length) and, up to the jump of 180 deg at a pole and the
+        // O(f) difference between longitude and arc, by as much as the arc length
+        { double dl = a1.v[1] - q.lon1, arc = am ? ARCS[p] : R.r[0][p][0].ret;
+          double sa = std::sin(q.azi1 * Math::degree());
+          bool meridional = std::fabs(sa) < 1e-6 || std::fabs(q.lat1) == 90;
+          if (!meridional && arc != 0 && !((dl > 0) == ((sa > 0) == (arc > 0)))) ctx.fail(key + " unroll-sense", "unrolled lon2 - lon1 = " + fx(dl) + " has the wrong sense for azi1 = " + fmt(q.azi1) + ", a12 = " + fmt(arc), FF("unroll-sense"));
+          double slack = 180 + 2 * std::fabs(q.f) * std::fabs(arc) + 1;
+          if (!(std::fabs(std::fabs(dl) - std::fabs(arc)) <= slack)) ctx.fail(key + " unroll-turns", "unrolled lon2 - lon1 = " + fx(dl) + " is inconsistent with an arc of " + fmt(arc) + " deg", FF("unroll-turns")); }
       }
       // arc-specified and distance-specified positions coincide (position error in metres against the documented accuracy)
       const Out& A = R.r[1][p][0]; const Out& D = R.r[0][p][0];
@@ -600,7 +609,7 @@ struct Course { const char* name; double lat1, lon1, azi12, s12, lat2, lon2; boo
 static const Course COURSES[] = {
   {"generic", 40, -70, 60, 3e6, 55, 10, true},
   {"beyond-the-pole", 30, 0, 10, 1.5e7, -80, 179, true},           // direct: lon2 and S12 are NaN
-  {"east-west-across-antimeridian", -20, 170, 90, 4e6, -20, -160, false},
+  {"east-west-across-antimeridian", -20, 170, 90, 4e6, -20, -160, true},
   {"negative-distance", 10, 10, -135, -2e6, -35, 10, false},
   {"winding-near-pole", 89, 0, 89.9, 2e6, 89.5, -120, false},
 };
@@ -650,6 +659,9 @@ static void run_rhumb(Ctx& ctx, bool T) {
       if (!mc::same_bits(rd[0].v[0], rd[1].v[0]) || !(mc::same_bits(rd[0].v[7], rd[1].v[7]) || (std::isnan(rd[0].v[7]) && std::isnan(rd[1].v[7])))) ctx.fail(kb + " unroll", "lat2/S12 depend on LONG_UNROLL", G);
       if (std::isnan(rd[0].v[1]) != std::isnan(rd[1].v[1])) ctx.fail(kb + " unroll-nan", "lon2 NaN-ness depends on LONG_UNROLL", G);
       else if (!std::isnan(rd[0].v[1])) {
+        // unrolled: lon2 - lon1 has the sense of sin(azi12) x sign(s12)
+        double dl = rd[1].v[1] - c.lon1, sa = std::sin(c.azi12 * Math::degree());
+        if (std::fabs(sa) > 1e-6 && c.s12 != 0 && !((dl > 0) == ((sa > 0) == (c.s12 > 0)))) ctx.fail(kb + " unroll-sense", "unrolled lon2 - lon1 = " + fx(dl) + " has the wrong sense", G);
         double d = std::remainder(rd[1].v[1] - rd[0].v[1], 360.0);
         if (!(std::fabs(d) <= 8 * EPS * std::fmax(180.0, std::fabs(rd[1].v[1]))) || !(rd[0].v[1] >= -180 && rd[0].v[1] <= 180)) ctx.fail(kb + " unroll-lon2", "unrolled lon2 " + fx(rd[1].v[1]) + " vs lon2 " + fx(rd[0].v[1]), G);
       } }
